@@ -40,6 +40,7 @@ CLASSES = ["L1Reg", "L1Reg-arr", "L2Reg", "L2Reg-y", "L2Reg-L1", "L2Reg-Box", "L
            "Conj-LInfProj", "Conj-L1Proj", "Conj-Box", "Conj-Stack", "Stack", "Stack-alpha",
            "Stack-Conj", "Unitary-FFT", "Unitary-Haar", "Unitary-Transpose", "Unitary-Conj",
            "Stack-nested", "Conj-Conj-L1Reg", "Conj-Conj-L2Proj", "Stack-of-one",
+           "Unitary-nested",
            "fn-soft_thresh", "fn-l1_proj", "fn-l2_proj", "fn-linf_proj", "fn-psd_proj",
            "fn-hard_thresh"]
 INPUTS = ["gauss", "gauss-big", "zeros", "boundary", "interior", "ties", "tiny", "huge",
@@ -176,6 +177,29 @@ def build(cls, rng, cplx):
         if cls == "Conj-Stack":
             st = PR.Conj(st)
         return st, list(st.shape), {"k": "free", "stack": names}
+    if cls == "Unitary-nested":
+        # two unitary transforms that do not commute (flip / circular shift / FFT / unit-modulus
+        # multiplier) around a prox that is not invariant under them (weighted l1, l2 with a
+        # bias, element-wise box): the outer operator acts on the input first
+        def unitary():
+            k_ = pick(rng, ["flip", "shift", "fft", "phase"] if cplx else ["flip", "shift"])
+            if k_ == "flip":
+                return sp.linop.Flip(shape, axes=[int(rng.integers(len(shape)))])
+            if k_ == "shift":
+                return sp.linop.Circshift(shape, [int(rng.integers(1, 3))], axes=[-1])
+            if k_ == "fft":
+                return sp.linop.FFT(shape, axes=[-1])
+            return sp.linop.Multiply(shape, np.exp(2j * np.pi * rng.random(shape)))
+        A1, A2 = unitary(), unitary()
+        inner_cls = pick(rng, ["L1Reg-arr", "L2Reg-y", "LInfProj-bias"])
+        if inner_cls == "L1Reg-arr":
+            lamv = np.abs(crandn(rng, shape, np.float64)) * S + 0.01 * S
+            p_ = PR.L1Reg(shape, lamv)
+        elif inner_cls == "L2Reg-y":
+            p_ = PR.L2Reg(shape, lam, y=arr())
+        else:
+            p_ = PR.LInfProj(shape, eps, bias=arr())
+        return PR.UnitaryTransform(PR.UnitaryTransform(p_, A1), A2), shape, {"k": "free"}
     if cls.startswith("Unitary-"):
         if cls == "Unitary-FFT":
             A = sp.linop.FFT(shape, axes=None if rng.random() < 0.5 else [-1])
